@@ -62,9 +62,12 @@ e2, _, _, _ = hist.run(lib, {name!r}, h)
 print('to_string     :', hist.verdict(e2))
 print('expected      :', {WHAT.get(prop, '')!r})
 print('observed      :', {detail!r})
-# the same contract evaluation as the check, on this type only
-r = histcheck.eval_type(({tkey!r}, {name!r}, 'quick', 0, 1)) if False else None
-sys.exit(1)
+# the same run-time contract as the check, evaluated on this one history against the library under MUSICXML_ROOT
+hist.histories = lambda *a, **k: iter([h])
+r = histcheck.eval_type(({tkey!r}, {name!r}, 'quick', 0, 1))
+mine = [f for f in r['fails'] if f[0] == {prop!r}]
+for f in mine: print('CONTRACT VIOLATED:', f[2])
+sys.exit(1 if mine else 0)
 '''
 
 
